@@ -2,6 +2,30 @@ import BSModel.Model.EncodingIn
 /-! helper lemmas for property C07 (core Lean only) -/
 namespace BS.EncodingIn
 
+theorem lowerC_idem (c : Nat) : lowerC (lowerC c) = lowerC c := by
+  unfold lowerC
+  by_cases h : 65 ≤ c ∧ c ≤ 90
+  · have h2 : ¬(65 ≤ c + 32 ∧ c + 32 ≤ 90) := by omega
+    rw [if_pos h, if_neg h2]
+  · rw [if_neg h, if_neg h]
+
+theorem lower_idem (s : Name) : lower (lower s) = lower s := by
+  simp [lower, List.map_map, Function.comp_def, lowerC_idem]
+
+theorem lookup_some_mem {α β} [BEq α] [LawfulBEq α] (l : List (α × β)) (k : α) (v : β) (h : l.lookup k = some v) :
+    (k, v) ∈ l := by
+  induction l with
+  | nil => cases h
+  | cons p t ih =>
+    obtain ⟨a, b⟩ := p
+    simp only [List.lookup] at h
+    split at h
+    · rename_i heq
+      have : k = a := by simpa using heq
+      subst this
+      cases h; exact List.mem_cons_self
+    · exact List.mem_cons_of_mem _ (ih h)
+
 /-! ## the generator and the candidate list -/
 
 theorem yieldAll_append (excl : List Name) (l1 l2 : List Name) (t : List Name) :
@@ -69,8 +93,8 @@ theorem yieldAll_fst (excl : List Name) (l : List Name) (tried : List Name) :
           cases List.contains excl (lower x) <;> rfl
 
 theorem encodingsImpl_eq_yieldAll (known : List Name) (bom : Option Name) (user : List Name)
-    (declared : Option Name) (excl : List Name) :
-    encodingsImpl known bom user declared excl = (yieldAll excl (sources known bom user declared) []).1 := by
+    (declared chardet : Option Name) (excl : List Name) :
+    encodingsImpl known bom user declared chardet excl = (yieldAll excl (sources known bom user declared chardet) []).1 := by
   simp only [encodingsImpl, sources, yieldAll_append, List.append_assoc]
 
 /-! ### laws of `dedupLower` -/
@@ -276,11 +300,11 @@ theorem pass2_spec (C : Codecs) (data : Bytes) (cands : List Name) (st : St)
 theorem dammitBytes_spec (C : Codecs) (a : Args) (data : Bytes) (bom declared : Option Name) :
     ((dammitBytes C a data bom declared).text, (dammitBytes C a data bom declared).originalEncoding,
       (dammitBytes C a data bom declared).containsReplacement)
-        = dammitSpec C data (detectorEncodings a bom declared)
+        = dammitSpec C data (detectorEncodings a bom declared (C.chardet data))
       ∧ (dammitBytes C a data bom declared).tried.Nodup := by
   unfold dammitBytes dammitSpec
   dsimp only
-  generalize detectorEncodings a bom declared = cands
+  generalize detectorEncodings a bom declared (C.chardet data) = cands
   obtain ⟨h1s, h1n⟩ := pass1_spec C data cands {} (inv_init C data) List.nodup_nil
   cases hf : cands.findSome? (attempt C data false) with
   | some ru =>
